@@ -27,7 +27,7 @@ RULE = ("merge_coolers: regression corpus (D16 all-empty / leading empty rows wi
         "both storage modes, columns count / count+x, agg sum/max/min, dtype overrides, mergebuf sampled from 1..nnz+1 always incl. 1 and nnz+1); "
         "all input orders for k<=3; nested merges (3 tree shapes); incompatible pairs of each kind; values at the dtype limits; `cooler merge` CLI; "
         "merge_breakpoints at function level: every family of 1..2 monotone index arrays of length 2..4 with increments 0..2 x bufsize 1..nnz+1, plus random "
-        "larger families; parameter/representation audit (one case each): dtypes full / partial / narrowing / float / unsigned dict, agg full / partial dict, unsigned and float input columns mixed with signed ones (oracle only: the model covers signed integers), bin tables with extra columns, inputs and output addressed by URI inside multi-group files, mode=a / --append next to an existing cooler, CLI default chunk size and --field dtype/agg specs, huge mergebuf; every aggregate pandas accepts in `agg` (sum mean min max first last size count nunique var std median prod, two callables) for count and for an extra column x column subsets, over disjoint-row / overlapping / identical / with-an-empty-input / k=1 / k=4 supports x mergebuf 1, middle, nnz+1 (oracle only, NaN-aware, relative slack 1e-9 on floats); a HISTORY pass in one process (16 merges): the same input URIs (plain files, and groups of one file), the same URI list / tuple, output path and columns / agg / dtypes objects across consecutive calls while the files are rewritten in between with other nnz, bin table, nbins, storage mode, dtypes (API and CLI), caller arguments asserted unchanged; the bin table of every output is part of the observable. non-trivial = at least two inputs with a shared pixel or a partition with >= 2 epochs or a refusal; distinct by input hash")
+        "input sets with value dtypes mixed across the inputs (int32+float64, int32+int64, float32+int32+float64, two columns with opposite dtypes; non-integral floats) laid out as separate files and as groups of one file, every input order, with and without a lossless dtypes override, results compared across layouts and orders; larger families; parameter/representation audit (one case each): dtypes full / partial / narrowing / float / unsigned dict, agg full / partial dict, unsigned and float input columns mixed with signed ones (oracle only: the model covers signed integers), bin tables with extra columns, inputs and output addressed by URI inside multi-group files, mode=a / --append next to an existing cooler, CLI default chunk size and --field dtype/agg specs, huge mergebuf; every aggregate pandas accepts in `agg` (sum mean min max first last size count nunique var std median prod, two callables) for count and for an extra column x column subsets, over disjoint-row / overlapping / identical / with-an-empty-input / k=1 / k=4 supports x mergebuf 1, middle, nnz+1 (oracle only, NaN-aware, relative slack 1e-9 on floats); a HISTORY pass in one process (16 merges): the same input URIs (plain files, and groups of one file), the same URI list / tuple, output path and columns / agg / dtypes objects across consecutive calls while the files are rewritten in between with other nnz, bin table, nbins, storage mode, dtypes (API and CLI), caller arguments asserted unchanged; the bin table of every output is part of the observable. non-trivial = at least two inputs with a shared pixel or a partition with >= 2 epochs or a refusal; distinct by input hash")
 TRUSTED = ["pandas concat + groupby(sort=True).aggregate, np.result_type, h5py dataset I/O are observed through merge_coolers, modelled by "
            "Model/Merge.v (group/groupby_agg, widest signed width, int64 wrap-around of integer sums)",
            "input coolers are written by cooler.create_cooler (ordered path) and read back raw with h5py before they are handed to the model"]
@@ -762,6 +762,38 @@ def agg_cases(rng, thorough):
     return cs
 
 
+def layout_dtype_cases(rng):
+    """the same input set laid out as separate files and as GROUPS OF ONE FILE, in every input order, with value dtypes
+    MIXED across the inputs (int32 / int64 / float32 / float64; float values are non-integral multiples of 0.25 so that a
+    truncation shows), with and without a dtypes override that cannot lose information; the merged cooler must be the exact
+    aggregate in the common result dtype, identical for both layouts and every order"""
+    cs = []
+    keys = G.all_keys(G.nbins("A4"), True)
+
+    def table(cols, shared):
+        # two pixels shared by all inputs of the set, three of its own
+        ks = sorted(shared + rng.sample([k for k in keys if k not in shared], 3))
+        return [[k[0], k[1], [(rng.randint(1, 30) / 4.0 + 0.25 * (1 + rng.randint(0, 2)) if str(t).startswith("f") else rng.randint(1, 9))
+                              for _, t in cols]] for k in ks]
+    sets = [
+        ("i32+f64", [[("count", 32)], [("count", "f64")]], [None, {"count": "f64"}]),
+        ("i32+i64", [[("count", 32)], [("count", 64)]], [None, {"count": 64}]),
+        ("f32+i32+f64", [[("count", "f32")], [("count", 32)], [("count", "f64")]], [None]),
+        ("two-columns", [[("count", 32), ("x", "f64")], [("count", "f64"), ("x", 16)]], [None]),
+    ]
+    for sno, (name, colsets, overrides) in enumerate(sets):
+        shared = rng.sample(keys, 2)
+        tabs = [table(cols, shared) for cols in colsets]
+        columns = ["count", "x"] if name == "two-columns" else None
+        for layout in ("files", "groups"):
+            ins = [inp("A4", True, cols, t, **({"group": f"/lay{sno}/in{i}"} if layout == "groups" else {}))
+                   for i, (cols, t) in enumerate(zip(colsets, tabs))]
+            for ov in overrides:
+                for perm in itertools.permutations(range(len(ins))):
+                    cs.append(("layout:" + name, mk(ins, rng.choice([1, 3, 50]), order=list(perm), dtypes=ov, columns=columns)))
+    return cs
+
+
 def first_leaf(case):
     nd = case.get("tree") or list(case.get("order") or range(len(case["inputs"])))
     while not isinstance(nd, int):
@@ -1019,6 +1051,7 @@ def run(ctx):
     cases += cli_cases(rng)
     cases += audit_cases(rng)
     cases += agg_cases(rng, thorough)
+    cases += layout_dtype_cases(rng)
 
     idx = [i for i, (_, case) in enumerate(cases) if modelled(case)]
     exprs = [model_expr(ws, cases[i][1]) for i in idx]
@@ -1053,6 +1086,10 @@ def run(ctx):
         verdict(ctx, case, got, exp, i64)
         if kind in ("orders", "nested"):
             key = canon({k: v for k, v in case.items() if k not in ("order", "tree")})
+            order_groups.setdefault(key, []).append((case, got))
+        if kind.startswith("layout:"):
+            # same data, other layout / order / mergebuf: strip the representation from the key
+            key = canon({"k": kind, "dt": case.get("dtypes"), "ins": sorted(canon({a: b for a, b in i.items() if a != "group"}) for i in case["inputs"])})
             order_groups.setdefault(key, []).append((case, got))
     # order independence / associativity, stated directly on the implementation's outputs
     for key, grp in order_groups.items():
